@@ -61,7 +61,8 @@ def impl_consts(nf, delays, maxw, idle, tokcap=None, maxt=1000, keephist=True, v
 def impl_wrong_variants(c):
     """TLC must REJECT the wrong variants of TimerImpl.tla: the properties rest on the atomicity / notification they remove."""
     out = {}
-    for variant, what in (("lateDecrement", "NoLostWakeup / Fires"), ("quietCancel", "WindDownArmed")):
+    for variant, what in (("lateDecrement", "NoLostWakeup / Fires"), ("quietCancel", "WindDownArmed"),
+                          ("rendezvous", "NoLostWakeup")):
         cfg = c.write_cfg("timer", "wrong-" + variant, spec="FairSpec",
                           constants=impl_consts(2, "D_n0125", 2, 1, maxt=24, keephist=False, variant=variant),
                           invariants=["TypeOK", "NoLostWakeup", "WindDownArmed"], properties=["Fires", "WindDown"])
